@@ -189,6 +189,11 @@ def run_spec(spec: dict) -> dict:
                 importlib.import_module(mod.name)
             except Exception:  # noqa: BLE001
                 pass
+        # ... and build the pool once, here, before any worker thread exists: its first construction is not atomic (a thread that
+        # starts drawing while another one is still harvesting sees a partial pool - finding F6)
+        import hypothesis.internal.conjecture.providers as hp
+
+        hp._get_local_constants()
     with _LOCK:
         _THREAD_REC.clear()
         _CURRENT["entropy"] = []
